@@ -111,6 +111,16 @@ func init() {
 					}
 					// queries as transitions: a read between two merges must not freeze anything
 					sp.Ops = append(sp.Ops, skCodec(0, 1, false, false), skCodec(1, 2, false, true), skCodec(2, 0, false, false), skClear(0), skClear(1), skRead(0), skRead(1))
+					if mc.MapOrderControlled {
+						for _, ord := range mapOrders {
+							for a := 0; a < 3; a++ {
+								b := (a + 1) % 3
+								if tr[b].K == 'S' {
+									sp.Ops = append(sp.Ops, skWithOrder(skMerge(a, b), ord), skWithOrder(skCodec(a, b, false, false), ord))
+								}
+							}
+						}
+					}
 					specs = append(specs, sp)
 				}
 			}
